@@ -330,4 +330,46 @@ example : AxisLaws (X := Nat) (fun _ x => x) (fun _ x => x) (fun _ _ _ x => x) i
   constructor <;> intros <;> rfl
 example : fft2 (listBackend fun _ _ xs => xs) ⟨true, true, true⟩ [0, 1, 2, 3, 4] = [0, 1, 2, 3, 4] := by decide
 
+
+/-! ## Part 3: re-implementations outside `transforms.py`, and the pinned `SheppLoganDataset.fft` -/
+
+/-- a re-implementation that passes `Reimpl.ok` computes exactly `fft2` / `ifft2` with
+`centered=True, normalized=True, complex_input=False` — on every backend -/
+theorem reimpl_eq_fft2 {X} (B : Backend X) (r : Reimpl) (h : r.ok = true) (x : X) :
+    runData B ⟨true, true, false⟩ r.steps x = (if r.inverse then ifft2 else fft2) B ⟨true, true, false⟩ x := by
+  have hs : r.steps = centredPlan r.inverse := by
+    simp only [Reimpl.ok, Bool.and_eq_true] at h
+    exact eq_of_beq h.1
+  rw [hs]
+  cases r.inverse <;> rfl
+
+/-- hence such a pair of re-implementations is an inverse pair wherever `fft2` / `ifft2` are -/
+theorem reimpl_inverse_pair {X} {B : Backend X} (hB : Lawful B) (f g : Reimpl) (hf : f.ok = true) (hg : g.ok = true)
+    (hfi : f.inverse = false) (hgi : g.inverse = true) (x : X) :
+    runData B ⟨true, true, false⟩ g.steps (runData B ⟨true, true, false⟩ f.steps x) = x := by
+  rw [reimpl_eq_fft2 B f hf, reimpl_eq_fft2 B g hg, hfi, hgi]
+  exact ifft2_fft2_id_of_lawful hB _ x
+
+/-- the pinned `SheppLoganDataset.fft` (`fftshift` before, `ifftshift` after the transform) fails the predicate … -/
+theorem shepp_fft_pinned_violates : sheppPinned.ok = false := by decide
+
+/-- … and really computes something else: on the unit impulse of length 3 (exact symbolic DFT) -/
+theorem shepp_fft_pinned_differs :
+    runData (listBackend fun inv _ => symDft inv 0) ⟨true, true, false⟩ sheppPinned.steps [some [0], none, none] ≠
+      fft2 (listBackend fun inv _ => symDft inv 0) ⟨true, true, false⟩ [some [0], none, none] := by decide
+
+/-- … while on every *even* length the two shifts coincide, so the pinned order was invisible there -/
+theorem shepp_fft_pinned_agrees_on_even {α} (F : Bool → Norm → List α → List α)
+    (hF : ∀ inv nm xs, (F inv nm xs).length = xs.length) (xs : List α) (he : xs.length % 2 = 0) :
+    runData (listBackend F) ⟨true, true, false⟩ sheppPinned.steps xs = fft2 (listBackend F) ⟨true, true, false⟩ xs := by
+  have hsame : ∀ ys : List α, ys.length % 2 = 0 → fftshift1 ys = ifftshift1 ys := fun ys h => by
+    unfold fftshift1 ifftshift1; rw [(shifts_agree_iff_even ys.length).mpr h]
+  have e1 : fftshift1 xs = ifftshift1 xs := hsame xs he
+  have e2 : ifftshift1 (F false .ortho (ifftshift1 xs)) = fftshift1 (F false .ortho (ifftshift1 xs)) :=
+    (hsame _ (by rw [hF, ifftshift1_length]; exact he)).symm
+  show ifftshift1 (F false .ortho (fftshift1 xs)) = fftshift1 (F false .ortho (ifftshift1 xs))
+  rw [e1, e2]
+
+example : (⟨false, centredPlan false, [some [1, 2], some [1, 2], some [1, 2]]⟩ : Reimpl).ok = true := by decide
+
 end DirectVerif.C01
